@@ -80,5 +80,12 @@ Pipeline(ss) == LET r == Register(Generate(ss, E), EmptyReg) IN MergeModels(r.st
 OrderFreeG == pc = "done" => CanonGraph(st.models) = CanonGraph(Pipeline(Reverse(samples)))
 \* the step-wise machine computes what the one-shot operator computes
 Agrees == pc = "done" => [i \in DOMAIN st.models |-> Canon(st.models[i].t)] = [i \in DOMAIN Pipeline(samples) |-> Canon(Pipeline(samples)[i].t)]
+\* the registry graph handed on to the layout stage (models/structure.py): both layouts place every model exactly once
+L == INSTANCE Layout
+LayMs == [i \in DOMAIN st.models |-> [ix |-> st.models[i].ix, inc |-> DerivedIn(st.models, {root}, st.models[i].ix)]]
+LayoutG == pc = "done" =>
+   LET n == L!Nested(LayMs) f == L!Flat(LayMs)
+   IN /\ ~n.err /\ L!EachOnceNested(LayMs, n) /\ L!EachOnceFlat(LayMs, f) /\ L!RootFirst(LayMs, f)
+      /\ (L!Tree(LayMs) => L!PlacedInReferrer(LayMs, n))
 Terminates == <>(pc = "done")
 =============================================================================
